@@ -135,9 +135,16 @@ Fixpoint gater_spec (slow : bool) (e : Z) (p : prev_state) (steps : list gobs) :
       | SBlock _ | SUnblock _ => gater_spec slow e p rest
       | SObs now bn bl gs scs nog =>
           let ips := upto (length scs) in
+          (* the oracle does not demand permissiveness: a listed IP must be refused on the outbound path (some gate among PeerDial,
+             AddrDial, Secured(outbound), Upgraded says no) AND on the inbound path (Accept, Secured(inbound), Upgraded); an
+             unlisted IP must pass every gate. Which gate refuses is the model's business (exact vector = model agreement). *)
           let gate_ok := forallb (fun ip =>
-                           let a := negb (memN ip bn || memN ip bl) in
-                           beq_list Bool.eqb (nth (N.to_nat ip) gs []) [true; a; a; a; true; true]) ips in
+                           let v := nth (N.to_nat ip) gs [] in
+                           let g k := nth k v false in
+                           let out_open := g 0%nat && g 1%nat && g 4%nat && g 5%nat in
+                           let in_open := g 2%nat && g 3%nat && g 5%nat in
+                           Nat.eqb (length v) 6 &&
+                           (if memN ip bn || memN ip bl then negb out_open && negb in_open else out_open && in_open)) ips in
           let ban_ok := forallb (fun ip =>
                            let '(s, x, o) := nth_score scs ip in
                            Bool.eqb (memN ip bn) (o && negb (x =? -1)) && (if o && negb (x =? -1) && negb slow then now <=? x else true)) ips in
@@ -153,7 +160,7 @@ Fixpoint gater_spec (slow : bool) (e : Z) (p : prev_state) (steps : list gobs) :
           (* accepted => clean: an IP that passes the gates carries no ban entry and no score at or above the threshold *)
           let clean_ok := forallb (fun ip =>
                            let '(s, x, o) := nth_score scs ip in
-                           let accepted := nth 1 (nth (N.to_nat ip) gs []) false in
+                           let accepted := forallb (fun b => b) (nth (N.to_nat ip) gs []) in
                            if accepted && o then (x =? -1) && (s <? max_penalty) else true) ips in
           gate_ok && ban_ok && clean_ok && (match p with [] => true | _ => cont_ok end) &&
           beq_list Bool.eqb nog [true; true; true; true; true; true] &&
